@@ -167,3 +167,12 @@ Fixpoint strictly_asc (ps : list patch) : bool :=
   | p :: ((q :: _) as r) => (p_off p <? p_off q) && strictly_asc r
   | _ => true
   end.
+
+Fixpoint nondecreasing (ps : list patch) : bool :=
+  match ps with
+  | p :: ((q :: _) as r) => (p_off p <=? p_off q) && nondecreasing r
+  | _ => true
+  end.
+(* fields representable in the wire format *)
+Definition patch_ok (p : patch) : Prop :=
+  0 <= p_off p < 2 ^ 63 /\ 0 <= p_old p < 2 ^ 32 /\ zlen (p_blob p) < 2 ^ 32 /\ all_bytes (p_blob p) = true.
